@@ -38,8 +38,13 @@ func (k Keeper) GetModuleAccountAndPermissions(ctx sdk.Ctx, moduleName string) (
 	if acc != nil {
 		macc, ok := acc.(exported.ModuleAccountI)
 		if !ok {
-			fmt.Println("account that is retrieved is not a module account")
-			return types.ModuleAccount{}, []string{}
+			// coins were sent to the module's address before the module account was first used:
+			// the plain account found there becomes the module account and keeps its coins
+			newMacc := types.NewEmptyModuleAccount(moduleName, perms...)
+			_ = newMacc.SetCoins(acc.GetCoins())
+			maccI := (k.NewAccount(ctx, newMacc)).(exported.ModuleAccountI)
+			k.SetModuleAccount(ctx, maccI)
+			return maccI, perms
 		}
 		return macc, perms
 	}
